@@ -23,6 +23,7 @@ RULE = (
     "flips natural; sustains (written on the notes in extra table tracks and in the random part) must not "
     "matter: distance is start to start. Non-trivial iff the gap is in {thr-1, thr, thr+1} or forced or a chord is involved; "
     "distinct key = (res, gap-thr, previous, current, flags), counted by construction in the table."
+    ' Also: a lane line repeated verbatim inside its tick group.'
 )
 ASSUMPTIONS = [
     "a forced flag is never placed on the first note of a track (documented ValueError)",
